@@ -221,3 +221,62 @@ func (self *Administrator) VerifPC() VerifPCState {
 	return st
 }
 func (self *Administrator) VerifTotalGrounded() uint64 { return self.bs.totalGrounded }
+
+// ---- codecs of unexported records (C13) ----
+
+func verifSmoothFrom(st VerifPredState) SmoothYs {
+	return SmoothYs{windowSize: st.WindowSize, maxYs: st.MaxYs, ys: append([]float64(nil), st.Ys...), window: append([]float64(nil), st.Window...)}
+}
+
+// VerifPredFromState builds a predictor with exactly the given state (Kind 1 linear, 2 polynomial).
+func VerifPredFromState(st VerifPredState) *VerifPred {
+	if st.Kind == 1 {
+		return &VerifPred{&bestFit{SmoothYs: verifSmoothFrom(st), m: st.M, c: st.C, pv: predictVersion(st.Pv)}}
+	}
+	return &VerifPred{&polyBestFit{SmoothYs: verifSmoothFrom(st), pv: predictVersion(st.Pv), consts: append([]float64(nil), st.Consts...), degree: st.Degree}}
+}
+
+// VerifEmptyPred returns a zero-valued predictor of the given kind to decode into.
+func VerifEmptyPred(kind int) *VerifPred {
+	if kind == 1 {
+		return &VerifPred{&bestFit{}}
+	}
+	return &VerifPred{&polyBestFit{}}
+}
+
+func VerifSmoothTo(st VerifPredState, b *bytes.Buffer) error { s := verifSmoothFrom(st); return s.To(b) }
+func VerifSmoothFrom(b *bytes.Buffer) (VerifPredState, error) {
+	var s SmoothYs
+	err := s.From(b)
+	var st VerifPredState
+	verifSmooth(&s, &st)
+	return st, err
+}
+
+func VerifPCTo(st VerifPCState, b *bytes.Buffer) error {
+	var pc promisesCorrection
+	pc.state.bacSmoothed = verifSmoothFrom(st.BacSm)
+	pc.state.cdSmoothed = verifSmoothFrom(st.CdSm)
+	pc.state.balanceAtClearance = st.BalanceAtClearance
+	pc.state.clearedDistance = st.ClearedDistance
+	pc.state.bacPerKm = st.BacPerKm
+	return pc.To(b)
+}
+func VerifPCFrom(b *bytes.Buffer) (VerifPCState, error) {
+	var pc promisesCorrection
+	err := pc.From(b)
+	var st VerifPCState
+	verifSmooth(&pc.state.bacSmoothed, &st.BacSm)
+	verifSmooth(&pc.state.cdSmoothed, &st.CdSm)
+	st.BalanceAtClearance = pc.state.balanceAtClearance
+	st.ClearedDistance = pc.state.clearedDistance
+	st.BacPerKm = pc.state.bacPerKm
+	return st, err
+}
+
+func VerifBackfillTo(n uint64, b *bytes.Buffer) error { s := backfillState{totalGrounded: n}; return s.To(b) }
+func VerifBackfillFrom(b *bytes.Buffer) (uint64, error) {
+	var s backfillState
+	err := s.From(b)
+	return s.totalGrounded, err
+}
